@@ -1,7 +1,7 @@
 #!/bin/bash
 # store_round3.sh <Cxx> : confirm both round-3 changes of a property in /tmp/wt${ROUND:-3}/<Cxx> and store them as seeded/<Cxx>-E|F (ROUND=3) or -G|H (ROUND=4)
 pid=$1; wt=/tmp/wt${ROUND:-3}/$pid
-pairs="A:E B:F"; [ "${ROUND:-3}" = 4 ] && pairs="A:G B:H"
+pairs="A:E B:F"; [ "${ROUND:-3}" = 4 ] && pairs="A:G B:H"; [ "${ROUND:-3}" = 5 ] && pairs="A:I B:J"
 for pair in $pairs; do
   x=${pair%:*}; y=${pair#*:}
   [ -f $wt/_mutants/$x.diff ] || { echo "$pid/$x missing"; continue; }
